@@ -244,6 +244,23 @@ def implicit_attributes():
     return None
 
 
+def namelist_groups():
+    """one NAMELIST statement may declare several groups, with or without a comma before the next `/group/`: each group has exactly its declared members"""
+    out = {}
+    for label, stmt in (("no comma", "namelist /grid/ nx, ny /time/ dt, tmax"), ("optional comma", "namelist /grid/ nx, ny, /time/ dt, tmax"), ("upper case and blanks", "NAMELIST / grid / nx , ny , / time / dt , tmax")):
+        src = f"module m\n  implicit none\n  integer :: nx, ny\n  real :: dt, tmax\n  {stmt}\nend module m\n"
+        try:
+            m = realrun.build_project({"src/m.f90": src}, display=["public", "private", "protected"]).modules[0]
+            out[label] = [(n.name.strip().lower(), [(v if isinstance(v, str) else v.name) for v in n.variables]) for n in m.namelists]
+        except Exception as e:
+            out[label] = f"{type(e).__name__}: {e}"
+    want = [("grid", ["nx", "ny"]), ("time", ["dt", "tmax"])]
+    bad = {k: v for k, v in out.items() if v != want}
+    if bad:
+        return {"confirmed": True, "input": {"statements": list(bad)}, "actual": bad, "expected": want, "how": "real pipeline: (group, members) of the namelists of one NAMELIST statement"}
+    return None
+
+
 def variants():
     return list(itertools.product(["paren", "star", "kind"], ["decl", "stmt"], ["bare", "kw", "named", "joined"], [True, False], [False, True]))
 
@@ -276,7 +293,7 @@ def search():
         if d:
             return {"confirmed": True, "input": {"source": text, "base": base_text, "variant": v}, "actual": d, "expected": "same canonical entity tree as the base spelling",
                     "how": f"real parser: base spelling vs variant (kind spelling, attribute style, end style, '::', upper case) = {v}"}
-    return search_rich() or enumerator_values() or common_members() or shadowed_members() or implicit_attributes()
+    return search_rich() or enumerator_values() or common_members() or shadowed_members() or implicit_attributes() or namelist_groups()
 
 
 def count_cases():
